@@ -85,6 +85,85 @@ def _run_one(args):
         return (v.name, v.kind, 'silent', '')
 
 
+# ----------------------------------------------------------------------- patch corpora (thorough tier)
+def corpus(prop: str):
+    """[(kind, id, patch path)]: every behaviour-preserving refactoring of corpus/benign (must stay silent for every property)
+    and the seeded property-breaking changes recorded for THIS property (must be reported)."""
+    import json
+    from .report import VERIF
+    out = []
+    d = os.path.join(VERIF, 'corpus', 'benign')
+    if os.path.isdir(d):
+        for pid in sorted(os.listdir(d)):
+            p = os.path.join(d, pid, 'patch.diff')
+            if os.path.exists(p):
+                out.append(('benign', pid, p))
+    d = os.path.join(VERIF, 'seeded')
+    if os.path.isdir(d):
+        for pid in sorted(os.listdir(d)):
+            mp, p = os.path.join(d, pid, 'meta.json'), os.path.join(d, pid, 'patch.diff')
+            if os.path.exists(mp) and os.path.exists(p):
+                try:
+                    with open(mp, encoding='utf-8') as f:
+                        meta = json.load(f)
+                except ValueError:
+                    continue
+                if (meta.get('breaks_property') or pid.split('-')[0]) == prop:
+                    out.append(('breaking', pid, p))
+    return out
+
+
+def patch_overlay(repo: str, patch_path: str):
+    """Apply a unified diff to copies of the touched files (a temporary directory; the tree is never modified).
+    None when the patch does not apply to the current tree."""
+    import re
+    import shutil
+    import subprocess
+    import tempfile
+    with open(patch_path, encoding='utf-8') as f:
+        text = f.read()
+    files = sorted(set(re.findall(r'^diff --git a/(\S+) b/\S+', text, re.M)))
+    with tempfile.TemporaryDirectory(prefix='kpsa-ov-') as td:
+        for rel in files:
+            src_, dst = os.path.join(repo, rel), os.path.join(td, rel)
+            os.makedirs(os.path.dirname(dst), exist_ok=True)
+            if os.path.exists(src_):
+                shutil.copy(src_, dst)
+        r = subprocess.run(['patch', '-p1', '-s', '-f', '-d', td, '-i', os.path.abspath(patch_path)], capture_output=True, text=True)
+        if r.returncode != 0:
+            return None
+        ov = {}
+        for rel in files:
+            p = os.path.join(td, rel)
+            if os.path.exists(p):
+                with open(p, encoding='utf-8') as f:
+                    ov[rel] = f.read()
+        return ov
+
+
+def _run_patch(args):
+    prop, repo, kind, pid, path = args
+    from .cli import run_property
+    try:
+        ov = patch_overlay(repo, path)
+    except Exception as e:
+        return (pid, kind, 'skipped', f'patch tool failed: {e}')
+    if ov is None:
+        return (pid, kind, 'skipped', 'the patch does not apply to the current tree')
+    try:
+        ctx = run_property(prop, 'quick', repo, overlay=ov)
+    except AnalysisError as e:
+        return (pid, kind, 'analysis-error', str(e)[:300])
+    except Exception as e:  # pragma: no cover
+        return (pid, kind, 'analysis-error', f'{type(e).__name__}: {e}'[:300])
+    rules = sorted({i.rule for i in ctx.violations})
+    if kind == 'breaking':
+        return (pid, kind, 'flagged', ','.join(rules)) if rules else (pid, kind, 'missed', 'no violation reported')
+    if rules:
+        return (pid, kind, 'false-alarm', '; '.join(f'{i.rule} {i.fact}'[:160] for i in ctx.violations[:3]))
+    return (pid, kind, 'silent', '')
+
+
 def baseline_violations(prop, repo):
     from .cli import run_property
     ctx = run_property(prop, 'quick', repo)
@@ -94,14 +173,18 @@ def baseline_violations(prop, repo):
 def run(prop: str, repo: str, seed: int = 0, jobs: Optional[int] = None):
     vs = variants(prop)
     res = []
-    if vs:
-        jobs = jobs or min(16, len(vs))
+    cp = corpus(prop)
+    if vs or cp:
+        jobs = jobs or min(16, len(vs) + len(cp))
         args = [(prop, repo, i) for i in range(len(vs))]
+        pargs = [(prop, repo, kind, pid, path) for kind, pid, path in cp]
         if jobs > 1:
             with ProcessPoolExecutor(max_workers=jobs) as ex:
-                res = list(ex.map(_run_one, args))
+                f1 = [ex.submit(_run_one, a) for a in args]
+                f2 = [ex.submit(_run_patch, a) for a in pargs]
+                res = [f.result() for f in f1] + [f.result() for f in f2]
         else:
-            res = [_run_one(a) for a in args]
+            res = [_run_one(a) for a in args] + [_run_patch(a) for a in pargs]
     b = [r for r in res if r[1] == 'breaking']
     g = [r for r in res if r[1] == 'benign']
     skipped = [r for r in res if r[2] == 'skipped']
